@@ -244,6 +244,11 @@ func (ls *listsSharder) splitPeerIds(peers []peer.ID) map[int]sorting.PeerDistan
 			Distance: ls.computeDistance(p, ls.selfPeerId),
 		}
 		pid := core.PeerID(p)
+		// preferred peers are never proposed for eviction, seeders included
+		if ls.preferredPeersHolder.Contains(pid) {
+			continue
+		}
+
 		isSeeder := ls.IsSeeder(pid)
 		if isSeeder {
 			peerDistances[seeders] = append(peerDistances[seeders], pd)
@@ -253,10 +258,6 @@ func (ls *listsSharder) splitPeerIds(peers []peer.ID) map[int]sorting.PeerDistan
 		ls.mutResolver.RLock()
 		peerInfo := ls.peerShardResolver.GetPeerInfo(pid)
 		ls.mutResolver.RUnlock()
-
-		if ls.preferredPeersHolder.Contains(pid) {
-			continue
-		}
 
 		if peerInfo.PeerType == core.UnknownPeer {
 			peerDistances[unknown] = append(peerDistances[unknown], pd)
